@@ -14,6 +14,7 @@ import OrasModel.Driver.Au
 import OrasModel.Driver.Sc
 import OrasModel.Driver.Rf
 import OrasModel.Driver.Rl
+import OrasModel.Driver.Tf
 import OrasModel.Driver.Pg
 import OrasModel.Driver.Rm
 import OrasModel.Driver.S
@@ -58,6 +59,9 @@ def handle (st : DState) (line : String) : DState × String :=
       | some (m, s) => (st, s!"m={m} s={s}")
       | none => (st, "bad-op"))
   | "sc" :: rest => (match Sc.step rest with
+      | some (m, s) => (st, s!"m={m} s={s}")
+      | none => (st, "bad-op"))
+  | "tf" :: rest => (match Tf.step rest with
       | some (m, s) => (st, s!"m={m} s={s}")
       | none => (st, "bad-op"))
   | "rf" :: rest => (match Rf.step rest with
